@@ -33,6 +33,7 @@ func init() {
 	ops["trunc"] = runTrunc
 	ops["garb"] = runGarb
 	ops["slots"] = runSlots
+	ops["slotop"] = runSlotOp
 }
 
 func registerMore(g *hx.Gen, out *hx.Out) {
@@ -593,7 +594,83 @@ func runSlots(args []string) []string {
 	return []string{"ok", hx.StrList(slots)}
 }
 
+// slotop args: read|attest, tool output kind (cert|empty|garbage|two), exit code, mode (local|remote), slot hex, DER hex of the certificate
+// output: "ok <DER hex>" | "err", then what the PIV tool was called with ("-" if it was not called)
+func runSlotOp(args []string) []string {
+	if toolDir == "" {
+		d, err := os.MkdirTemp("", "veriftool")
+		if err != nil {
+			panic(err)
+		}
+		toolDir = d
+		os.Setenv("PATH", d+":"+os.Getenv("PATH"))
+	}
+	_, pemBytes := fixedCert()
+	var text []byte
+	switch args[1] {
+	case "cert":
+		text = pemBytes
+	case "two":
+		text = append(append([]byte{}, pemBytes...), pemBytes...)
+	case "garbage":
+		text = []byte("-----BEGIN CERTIFICATE-----\nnot base64 at all\n-----END CERTIFICATE-----\n")
+	}
+	outFile := filepath.Join(toolDir, "out.bin")
+	argFile := filepath.Join(toolDir, "args.txt")
+	os.Remove(argFile)
+	os.WriteFile(outFile, text, 0o600)
+	script := fmt.Sprintf("#!/bin/sh\nprintf '%%s\\n' \"$@\" > %s\ncat %s\nexit %s\n", argFile, outFile, args[2])
+	os.WriteFile(filepath.Join(toolDir, "yubico-piv-tool"), []byte(script), 0o755)
+	sock := filepath.Join(toolDir, "agent.sock")
+	os.Remove(sock)
+	l, err := net.Listen("unix", sock)
+	if err != nil {
+		panic(err)
+	}
+	defer l.Close()
+	srv, err := yubiagent.NewServer(sock, args[3] == "remote")
+	if err != nil {
+		return []string{"err-newserver", "-"}
+	}
+	defer srv.Close()
+	fn := srv.ReadSlot
+	if args[0] == "attest" {
+		fn = srv.AttestSlot
+	}
+	c, err := fn(string(hx.UnHex(args[4])))
+	res := "err"
+	if err == nil && c != nil {
+		res = "ok " + hx.Hex(c.Raw)
+	} else if err == nil {
+		res = "nil-nil"
+	}
+	seen := "-"
+	if b, err := os.ReadFile(argFile); err == nil {
+		seen = hx.Hex(b)
+	}
+	return []string{res, seen}
+}
+
+func genSlotOps(g *hx.Gen, out *hx.Out) {
+	n := 0
+	c, _ := fixedCert()
+	for _, kind := range []string{"read", "attest"} {
+		for _, mode := range []string{"local", "remote"} {
+			for _, text := range []string{"cert", "empty", "garbage"} {
+				for _, exit := range []string{"0", "1"} {
+					for _, slot := range []string{"9a", "f9", "", "x y"} {
+						args := []string{kind, text, exit, mode, hx.HexS(slot), hx.Hex(c.Raw)}
+						out.Case(fmt.Sprintf("so%d", n), "slotop", args, safe(runSlotOp, args))
+						n++
+					}
+				}
+			}
+		}
+	}
+}
+
 func genSlots(g *hx.Gen, out *hx.Out) {
+	genSlotOps(g, out)
 	n := 0
 	emit := func(text string, exit int, mode string) {
 		id := fmt.Sprintf("sl%d", n)
